@@ -156,6 +156,13 @@ fn dump<'tcx>(tcx: TyCtxt<'tcx>, out: &str) {
                     fns.push(dump_body(&mut cx, ldid, pb, Some(pi.as_usize())));
                 }
             }
+            DefKind::InlineConst => {
+                // `const { .. }` blocks: their body is what the enclosing function's constant operand evaluates
+                let r = std::panic::catch_unwind(std::panic::AssertUnwindSafe(|| tcx.mir_for_ctfe(did)));
+                if let Ok(body) = r {
+                    fns.push(dump_body(&mut cx, ldid, body, None));
+                }
+            }
             DefKind::Static { .. } => {
                 statics.push(dump_static(&mut cx, ldid));
             }
